@@ -1,1 +1,5 @@
 import RaftLogModel.Props.C15
+open RaftLog
+#print axioms c15_accounting_exact
+#print axioms c15_over_limit_only_pinned
+#print axioms c15_drained
